@@ -3,6 +3,7 @@ import Driver.Spec
 import Driver.Endpoint
 import Driver.Fq
 import Driver.World
+import Driver.Net
 /-! `zmqmodel <engine>`: one op per line in, one canonical result line out — the model side of
 the correspondence check. -/
 open Driver
@@ -52,6 +53,7 @@ def main (args : List String) : IO UInt32 := do
   | ["codec"] => loopCodec stdin stdout {}; return 0
   | ["spec"] => loopPure stdin stdout specOp; return 0
   | ["world"] => loopSt stdin stdout worldOp {}; return 0
+  | ["net"] => loopSt stdin stdout netOp {}; return 0
   | ["fq"] => loopSt stdin stdout fqOp {}; return 0
   | ["endpoint"] => loopPure stdin stdout endpointOp; return 0
   | _ => IO.eprintln "usage: zmqmodel <engine>"; return 2
